@@ -103,8 +103,12 @@ fn shorten(mut enc: Vec<u8>, sym: &Sym, storage: bool) -> Vec<u8> {
     }
     enc
 }
+/// storage-header contents vary with the position in the stream: ordinary, the largest legal and
+/// illegal microsecond counts, all-ones (uninitialised), zero, and ECU ids of every length
 fn storage_hdr(counter: u8) -> RefStorage {
-    storage(1000 + counter as u32, 7, "STO")
+    let micros = [7u32, 999_999, 1_000_000, 1_000_001, 0xFFFF_FFFF, 0][counter as usize % 6];
+    let secs = [1000 + counter as u32, 0, 0xFFFF_FFFF, 0x8000_0000][(counter as usize / 6) % 4];
+    storage(secs, micros, ["STO", "", "S", "STOR", "\u{e9}1"][(counter as usize / 2) % 5])
 }
 
 type Tally = BTreeMap<String, [usize; 8]>;
